@@ -505,3 +505,430 @@ def rule_connection_maps(ctx: Ctx, mod) -> None:
                       f"`{u(s)[:80]}` overwrites the data of {owner[4]} itself (no copy): after the call the grid's incidence has lost "
                       f"its signs, divergence and every discretisation built later are wrong", construct=f"{q.split('.')[1]}: data overwritten only on a copy",
                       facts={"owner": owner[4], "alias": owner[5]})
+
+
+# =====================================================================================
+#  R4  divergence / trace: orientation and Kronecker numbering
+# =====================================================================================
+
+def _dim_condition(f: View, node: ast.AST, param: str) -> list[tuple[str, int, bool]]:
+    """conjunction of (op name, constant, holds) tests on `param` established at node by enclosing if/elif arms"""
+    out = []
+    cur = node
+    while cur is not f.fn and cur in f.pm:
+        par = f.pm[cur]
+        if isinstance(par, ast.If):
+            t = par.test
+            if isinstance(t, ast.Compare) and len(t.ops) == 1 and u(t.left) == param and _const_int(t.comparators[0]) is not None \
+                    and type(t.ops[0]) in _CMP:
+                in_body = any(cur is x for x in par.body)
+                out.append((type(t.ops[0]), _const_int(t.comparators[0]), in_body))
+        # path condition from earlier terminal `if`s of the same block (early return / raise)
+        for fld in ("body", "orelse", "finalbody"):
+            blk = getattr(par, fld, None)
+            if isinstance(blk, list) and any(cur is x for x in blk):
+                for prev in blk[:[id(x) for x in blk].index(id(cur))]:
+                    if isinstance(prev, ast.If) and not prev.orelse and prev.body and isinstance(prev.body[-1], (ast.Return, ast.Raise)):
+                        t = prev.test
+                        if isinstance(t, ast.Compare) and len(t.ops) == 1 and u(t.left) == param \
+                                and _const_int(t.comparators[0]) is not None and type(t.ops[0]) in _CMP:
+                            out.append((type(t.ops[0]), _const_int(t.comparators[0]), False))
+        cur = par
+    return out
+
+
+def _dims_allowed(conds) -> list[int]:
+    return [d for d in (-1, 0, 1, 2, 3) if all(_CMP[op](d - c) == holds for op, c, holds in conds)]
+
+
+def _strip_conv(e: ast.expr) -> ast.expr:
+    while isinstance(e, ast.Call) and isinstance(e.func, ast.Attribute) and e.func.attr in CONV | {"copy"} and not e.args:
+        e = e.func.value
+    return e
+
+
+def _strip_T(e: ast.expr) -> tuple[ast.expr, bool]:
+    e = _strip_conv(e)
+    flipped = False
+    while True:
+        if isinstance(e, ast.Attribute) and e.attr == "T":
+            e, flipped = _strip_conv(e.value), not flipped
+        elif isinstance(e, ast.Call) and isinstance(e.func, ast.Attribute) and e.func.attr == "transpose" and not e.args:
+            e, flipped = _strip_conv(e.func.value), not flipped
+        else:
+            return e, flipped
+
+
+def rule_divergence(ctx: Ctx, mod, amod) -> None:
+    conv = nd_numbering(None, amod)
+    q = "Grid.divergence"
+    f = View(mod, q)
+    if f.params[:2] != ["self", "dim"]:
+        raise AnchorError(f"{GRID}:{q}: signature changed ({f.params})")
+    mi = MatInterp(f, None)
+    seen = {"scalar": 0, "vector": 0}
+    for r in [s for s in f.stmts if isinstance(s, ast.Return) and s.value is not None]:
+        dims = _dims_allowed(_dim_condition(f, r, "dim"))
+        c = f.canon2(r.value, r)  # type: ignore[arg-type]
+        if dims == [1]:
+            seen["scalar"] += 1
+            v = mi.ev(_strip_conv(c))
+            if not (v and v[0] == "mat"):
+                raise f.und("cannot type the scalar divergence", r)
+            ctx.check("R4", (v[1], v[2]) == ("C", "F"), mod, q, r,
+                      f"the scalar divergence sums face fluxes per cell: cells x faces = cell_faces^T; the returned expression is "
+                      f"{_sp(v[1])} x {_sp(v[2])} [{v[4]}]", construct="divergence: scalar arm is cells x faces", facts={"term": v[4]})
+        elif dims and max(dims) >= 2 and 1 not in dims:
+            seen["vector"] += 1
+            inner, flipped = _strip_T(c)
+            ks = kron_sides(f, inner, r)
+            if ks is None or not (isinstance(inner, ast.Call) and call_name(inner) == "kron"):
+                raise f.und("vector divergence is not (a transpose of) a Kronecker product", r)
+            call, side, m, n = ks
+            want = "eye-right" if conv["numbering"] == "component-minor" else "eye-left"
+            ctx.check("R4", side == want, mod, q, r,
+                      f"vector unknowns are numbered nd*index + component (utils.expand_indices_nd, Grid.trace, the docstring of this "
+                      f"method); kron(M, eye(dim)) produces that numbering on rows and columns, kron(eye(dim), M) the component-major one; "
+                      f"found {u(call)}", construct="divergence: vector arm is kron(incidence, eye(dim))",
+                      facts={"found": side, "expand_indices_nd": conv["numbering"]})
+            ctx.check("R4", u(n) == "dim", mod, q, r, f"the identity factor has the size of the argument dim; found {u(n)}",
+                      construct="divergence: identity of size dim")
+            v = mi.ev(m)
+            if not (v and v[0] == "mat"):
+                raise f.und("cannot type the matrix factor of the Kronecker product", r)
+            rows, cols = (v[2], v[1]) if flipped else (v[1], v[2])
+            ctx.check("R4", (rows, cols) == ("C", "F"), mod, q, r,
+                      f"the vector divergence is (cells*dim) x (faces*dim) like the scalar one; the returned expression is "
+                      f"{_sp(rows)}*dim x {_sp(cols)}*dim", construct="divergence: vector arm is cells x faces", facts={"term": v[4], "transposed": flipped})
+        else:
+            raise f.und(f"a matrix is returned for dim in {dims}", r)
+    if seen["scalar"] != 1 or seen["vector"] != 1:
+        raise AnchorError(f"{GRID}:{q}: expected one scalar (dim == 1) and one vector (dim > 1) arm, found {seen}")
+    # non-positive dim raises
+    raises = [s for s in f.stmts if isinstance(s, ast.Raise)]
+    cover = set()
+    for s in raises:
+        cover |= set(_dims_allowed(_dim_condition(f, s, "dim")))
+    ctx.check("R4", {-1, 0} <= cover and not ({1, 2, 3} & cover), mod, q, raises[0] if raises else f.fn,
+              f"dim <= 0 must raise and dim >= 1 must not; raising for dim in {sorted(cover)} of (-1, 0, 1, 2, 3)",
+              construct="divergence: non-positive dim raises", facts={"raises_for": sorted(cover)})
+    # ---- trace: the sibling that numbers rows and columns with expand_indices_nd
+    q = "Grid.trace"
+    f = View(mod, q)
+    calls = [n for n in _nodes(f) if isinstance(n, ast.Call) and call_name(n) == "expand_indices_nd"]
+    coo = [n for n in _nodes(f) if isinstance(n, ast.Call) and call_name(n) in ("coo_matrix", "coo_array", "csr_matrix", "csc_matrix")
+           and n.args and isinstance(n.args[0], ast.Tuple) and len(n.args[0].elts) == 2 and isinstance(n.args[0].elts[1], ast.Tuple)]
+    if len(calls) != 2 or len(coo) != 1:
+        raise AnchorError(f"{GRID}:{q}: expected two expand_indices_nd calls and one coordinate-format constructor")
+    at = f.stmt_of(coo[0])
+    I, J = (f.canon2(x, at) for x in coo[0].args[0].elts[1].elts)  # type: ignore[union-attr]
+    if not all(isinstance(x, ast.Call) and call_name(x) == "expand_indices_nd" for x in (I, J)):
+        raise f.und("row/column arrays of the trace are not expand_indices_nd(..)", coo[0])
+
+    def nd_of(c: ast.Call):
+        return c.args[1] if len(c.args) > 1 else kwarg(c, "nd")
+
+    def extra(c: ast.Call):
+        return [u(a) for a in c.args[2:]] + sorted(f"{k.arg}={u(k.value)}" for k in c.keywords if k.arg not in ("ind", "nd"))
+    ctx.check("R4", nd_of(I) is not None and nd_of(J) is not None and u(nd_of(I)) == u(nd_of(J)) == "dim" and extra(I) == extra(J) == [],  # type: ignore[arg-type]
+              mod, q, coo[0], f"rows and columns of the trace must be expanded with the same dimension (the argument) and the default "
+              f"(per-index) order; found {u(I)[:70]} / {u(J)[:70]}", construct="trace: rows and columns expanded alike")
+    # roles: rows from the boundary faces, columns from the cells returned for those faces
+    r_arg = I.args[0] if I.args else kwarg(I, "ind")  # type: ignore[union-attr]
+    c_arg = J.args[0] if J.args else kwarg(J, "ind")  # type: ignore[union-attr]
+    r_raw = coo[0].args[0].elts[1].elts[0]  # type: ignore[union-attr]
+    cell_src = None
+    for nm, ds in f.defs.items():
+        for d in ds:
+            if d.kind == "tuple" and isinstance(d.value, ast.Call) and call_name(d.value) == "signs_and_cells_of_boundary_faces":
+                if d.pos == 1:
+                    cell_src = (nm, d)
+    if cell_src is None:
+        raise f.und("cells of the boundary faces are not taken from signs_and_cells_of_boundary_faces(..)[1]")
+    faces_arg = f.canon2(cell_src[1].value.args[0], cell_src[1].stmt)  # type: ignore[union-attr]
+    raw_calls = {u(f.canon2(c, f.stmt_of(c))): c for c in calls}
+    col_call = raw_calls.get(u(J))
+    col_ind = None if col_call is None else (col_call.args[0] if col_call.args else kwarg(col_call, "ind"))
+    col_is_cells = isinstance(col_ind, ast.Name) and col_ind.id == cell_src[0]
+    ctx.check("R4", u(r_arg) == u(faces_arg) and col_is_cells, mod, q, coo[0],  # type: ignore[arg-type]
+              f"the trace has a one in row (face f) and column (cell next to f): rows come from the faces handed to "
+              f"signs_and_cells_of_boundary_faces, columns from its second output; found rows {u(r_arg)[:60]}, columns {u(c_arg)[:60]}",  # type: ignore[arg-type]
+              construct="trace: rows are faces, columns the cells returned for them")
+    shp = kwarg(coo[0], "shape") or (coo[0].args[1] if len(coo[0].args) > 1 else None)
+    ok = isinstance(shp, ast.Tuple) and len(shp.elts) == 2 and "num_faces" in u(shp.elts[0]) and "num_cells" in u(shp.elts[1]) \
+        and all("dim" in names_in(x) for x in shp.elts)
+    ctx.check("R4", bool(ok), mod, q, coo[0], f"the trace is (num_faces*dim) x (num_cells*dim); found shape {u(shp) if shp is not None else None}",
+              construct="trace: shape")
+    ctx.check("R4", conv["numbering"] == "component-minor" and conv["grouping"] == "per-index", amod, "expand_indices_nd", conv["node"],
+              "expand_indices_nd numbers nd*index + component and lists the components of one index together (same numbering as the "
+              "Kronecker product with the identity on the right)", construct="expand_indices_nd: numbering shared with divergence",
+              facts={"numbering": conv["numbering"], "grouping": conv["grouping"]})
+
+
+# =====================================================================================
+#  R5  update_boundary_face_tag
+# =====================================================================================
+
+def _cf_chain(e: ast.expr) -> Optional[list[str]]:
+    """self.cell_faces.tocsr().copy() ... -> list of the methods applied; None if not rooted in self.cell_faces"""
+    chain = []
+    while True:
+        if u(e) == "self.cell_faces":
+            return list(reversed(chain))
+        if isinstance(e, ast.Call) and isinstance(e.func, ast.Attribute) and not e.args and e.func.attr in CONV | {"copy", "__abs__"}:
+            chain.append(e.func.attr)
+            e = e.func.value
+        elif isinstance(e, ast.Call) and call_name(e) in ("abs", "absolute") and len(e.args) == 1:
+            chain.append("abs")
+            e = e.args[0]
+        else:
+            return None
+
+
+def _count_space(f: View, e: ast.expr) -> Optional[str]:
+    """space ('F' faces | 'C' cells) on which a per-line entry count of cell_faces lives"""
+    while isinstance(e, ast.Call) and ((isinstance(e.func, ast.Attribute) and e.func.attr in ("ravel", "flatten", "squeeze", "astype")
+                                        and not (isinstance(e.func.value, ast.Name) and e.func.value.id == "np"))):
+        e = e.func.value
+    while isinstance(e, ast.Call) and call_name(e) in ("asarray", "array", "ravel", "squeeze") and e.args:
+        e = e.args[0]
+    if isinstance(e, ast.Attribute) and e.attr in ("A1",):
+        e = e.value
+    if isinstance(e, ast.Call) and call_name(e) == "diff" and len(e.args) == 1 and isinstance(e.args[0], ast.Attribute) and e.args[0].attr == "indptr":
+        ch = _cf_chain(e.args[0].value)
+        if ch is None:
+            return None
+        fm = [c for c in ch if c in ("tocsr", "tocsc")]
+        if not fm:
+            raise f.und("pointer array of cell_faces read without fixing the storage format (tocsr/tocsc)", e)
+        return "F" if fm[-1] == "tocsr" else "C"
+    if isinstance(e, ast.Call) and call_name(e) in ("getnnz", "sum") and isinstance(e.func, ast.Attribute):
+        ch = _cf_chain(e.func.value)
+        ax = kwarg(e, "axis") or (e.args[0] if e.args else None)
+        if ch is None or ax is None or _const_int(ax) not in (0, 1):
+            return None
+        if call_name(e) == "sum" and "abs" not in ch and "__abs__" not in ch:
+            raise f.und("entries of cell_faces summed with their signs", e)
+        return "F" if _const_int(ax) == 1 else "C"
+    if isinstance(e, ast.Call) and call_name(e) == "bincount" and e.args and isinstance(e.args[0], ast.Attribute) and e.args[0].attr == "indices":
+        ch = _cf_chain(e.args[0].value)
+        if ch is None:
+            return None
+        fm = [c for c in ch if c in ("tocsr", "tocsc")]
+        if not fm:
+            raise f.und("indices of cell_faces read without fixing the storage format", e)
+        return "F" if fm[-1] == "tocsc" else "C"
+    return None
+
+
+def rule_boundary_face_tag(ctx: Ctx, mod) -> None:
+    q = "Grid.update_boundary_face_tag"
+    f = View(mod, q)
+    cmps = []
+    for n in _nodes(f):
+        if isinstance(n, ast.Compare) and len(n.ops) == 1 and _const_int(n.comparators[0]) is not None and type(n.ops[0]) in _CMP:
+            sp = _count_space(f, f.canon2(n.left, f.stmt_of(n)))
+            if sp is not None:
+                cmps.append((n, sp))
+    if len(cmps) != 1:
+        raise f.und(f"expected one comparison of a per-line entry count of cell_faces with a constant, found {len(cmps)}")
+    cmp_, sp = cmps[0]
+    ctx.check("R5", sp == "F", mod, q, cmp_,
+              f"cell_faces is faces x cells: the number of neighbouring cells of a face is the entry count of a ROW (pointer array of the "
+              f"csr form, getnnz(axis=1)); the count compared here is taken per {_sp(sp)[:-1]}",
+              construct="boundary faces: entry count per face", facts={"space": _sp(sp)})
+    c = _const_int(cmp_.comparators[0])
+    truth = [_CMP[type(cmp_.ops[0])](k - c) for k in (1, 2)]  # type: ignore[operator]
+    ctx.check("R5", truth == [True, False], mod, q, cmp_,
+              f"a boundary face has exactly one neighbouring cell, an internal face two: `<count> {u(cmp_.ops[0])} {c}` gives {truth} for 1 and 2 cells",
+              construct="boundary faces: exactly one neighbouring cell", facts={"test": u(cmp_.ops[0]) + str(c)})
+    # the stores
+    def tag_key(t: ast.expr) -> Optional[str]:
+        if isinstance(t, ast.Subscript) and u(t.value) == "self.tags" and isinstance(t.slice, ast.Constant) and isinstance(t.slice.value, str):
+            return t.slice.value
+        return None
+    resets, sets = [], []
+    for s in f.stmts:
+        if isinstance(s, ast.Assign) and len(s.targets) == 1:
+            t = s.targets[0]
+            if tag_key(t) is not None:
+                resets.append((s, tag_key(t), f.canon2(s.value, s)))
+            elif isinstance(t, ast.Subscript) and tag_key(t.value) is not None:
+                sets.append((s, tag_key(t.value), t.slice))
+    if not sets:
+        raise f.und("expected `self.tags[key][faces] = True`")
+    s_set, k_set, idx = sets[0]
+    derived = any(n is cmp_ or u(n) == u(cmp_) for n in ast.walk(f.canon2(idx, s_set))) or \
+        u(f.canon2(cmp_, f.stmt_of(cmp_))) in u(f.canon2(idx, s_set))
+    if not derived:
+        raise f.und("faces set to True are not derived from the entry-count comparison", s_set)
+    rs = [r for r in resets if r[1] == k_set]
+    ok = bool(rs) and isinstance(rs[0][2], ast.Call) and call_name(rs[0][2]) in ("zeros", "full") and "num_faces" in u(rs[0][2]) \
+        and k_set.endswith("_faces") and "bool" in u(rs[0][2])
+    ctx.check("R5", ok, mod, q, rs[0][0] if rs else s_set,
+              f"the tag written is a face tag: self.tags['{k_set}'] must be re-created as a boolean array with num_faces entries; found "
+              f"{u(rs[0][2])[:70] if rs else 'no assignment of that key'}", construct="boundary faces: tag array re-created with num_faces entries",
+              facts={"key": k_set})
+    if rs:
+        ctx.check("R5", f.dominates(rs[0][0], s_set), mod, q, s_set,
+                  "the tag array must be cleared before the boundary faces are set (faces that are no longer on the boundary - e.g. after "
+                  "splitting - would keep the tag)", construct="boundary faces: cleared before set")
+
+
+# =====================================================================================
+#  R6  tag tables
+# =====================================================================================
+
+def _returned_list(tmod, name: str) -> list[str]:
+    fn = tmod.func(name)
+    rets = [n for n in ast.walk(fn) if isinstance(n, ast.Return) and n.value is not None]
+    if len(rets) != 1 or not isinstance(rets[0].value, (ast.List, ast.Tuple)) or \
+            not all(isinstance(x, ast.Constant) and isinstance(x.value, str) for x in rets[0].value.elts):
+        raise AnchorError(f"{TAGS}:{name}: does not return a literal list of strings")
+    return [x.value for x in rets[0].value.elts]  # type: ignore[attr-defined]
+
+
+def _calls_in(fn: ast.AST, name: str) -> list[ast.Call]:
+    return [n for n in ast.walk(fn) if isinstance(n, ast.Call) and call_name(n) == name]
+
+
+def rule_tag_tables(ctx: Ctx, mod, tmod) -> None:
+    sf, sn = _returned_list(tmod, "standard_face_tags"), _returned_list(tmod, "standard_node_tags")
+
+    def stem(x: str) -> str:
+        return x.rsplit("_", 1)[0]
+    ctx.check("R6", all(x.endswith("_faces") for x in sf) and all(x.endswith("_nodes") for x in sn) and sorted(map(stem, sf)) == sorted(map(stem, sn))
+              and len(set(sf)) == len(sf), tmod, "standard_face_tags", tmod.func("standard_face_tags"),
+              f"every standard face tag has a node tag of the same stem and vice versa; faces {sf}, nodes {sn}",
+              construct="standard face and node tags have the same stems", facts={"faces": sf, "nodes": sn})
+    # all_tags covers the whole list
+    at = tmod.func("all_tags")
+    lp = at.args.args[1].arg if len(at.args.args) >= 2 else None
+    if lp is None:
+        raise AnchorError(f"{TAGS}:all_tags: signature changed")
+    idxs = sorted({_const_int(n.slice) for n in ast.walk(at) if isinstance(n, ast.Subscript) and u(n.value) == lp and _const_int(n.slice) is not None})
+    whole = any((isinstance(n, (ast.For, ast.comprehension)) and u(n.iter) == lp) for n in ast.walk(at))
+    if not idxs and not whole:
+        raise Undecided(f"{TAGS}:all_tags: neither indexed reads of `{lp}` nor an iteration over it")
+    ors = all(call_name(c) in ("logical_or", "reduce", "any") for c in ast.walk(at) if isinstance(c, ast.Call)) if not whole else True
+    for nm, lst in (("face", sf), ("node", sn)):
+        ctx.check("R6", (whole or idxs == list(range(len(lst)))) and ors, tmod, "all_tags", at,
+                  f"all_tags must OR every one of the {len(lst)} standard {nm} tags; it reads positions {idxs} of the list",
+                  construct=f"all_tags covers all standard {nm} tags", facts={"positions": idxs, "n": len(lst)})
+    for wrapper, lst in (("all_face_tags", "standard_face_tags"), ("all_node_tags", "standard_node_tags")):
+        w = tmod.func(wrapper)
+        ctx.check("R6", bool(_calls_in(w, "all_tags")) and bool(_calls_in(w, lst)) and not _calls_in(w, "standard_node_tags" if "face" in lst else "standard_face_tags"),
+                  tmod, wrapper, w, f"{wrapper} must combine the tags listed by {lst}()", construct=f"{wrapper} uses {lst}")
+    gcls = "Grid."
+    for meth, helper, other in (("get_all_boundary_faces", "all_face_tags", "all_node_tags"), ("get_all_boundary_nodes", "all_node_tags", "all_face_tags")):
+        fn = mod.func(gcls + meth)
+        ctx.check("R6", bool(_calls_in(fn, helper)) and not _calls_in(fn, other), mod, gcls + meth, fn,
+                  f"{meth} must be the support of {helper}(self.tags)", construct=f"{meth} uses {helper}")
+    for meth, lst, size in (("initiate_face_tags", "standard_face_tags", "num_faces"), ("initiate_node_tags", "standard_node_tags", "num_nodes")):
+        fn = mod.func(gcls + meth)
+        ctx.check("R6", bool(_calls_in(fn, lst)) and size in u(fn) and ("num_nodes" if size == "num_faces" else "num_faces") not in u(fn),
+                  mod, gcls + meth, fn, f"{meth} creates one array of {size} entries per key of {lst}()", construct=f"{meth}: keys and size")
+    # face tag -> node tag map
+    q = gcls + "update_boundary_node_tag"
+    fn = mod.func(q)
+    dicts = [n for n in ast.walk(fn) if isinstance(n, ast.Dict) and n.keys and all(isinstance(k, ast.Constant) and isinstance(k.value, str) for k in n.keys)
+             and all(isinstance(v, ast.Constant) and isinstance(v.value, str) for v in n.values)]
+    if len(dicts) != 1:
+        raise Undecided(f"{GRID}:{q}: expected one literal face-tag -> node-tag dictionary")
+    pairs = [(k.value, v.value) for k, v in zip(dicts[0].keys, dicts[0].values)]  # type: ignore[union-attr]
+    ctx.check("R6", sorted(k for k, _ in pairs) == sorted(sf), mod, q, dicts[0],
+              f"every standard face tag must be transferred to the nodes; mapped: {[k for k, _ in pairs]}, standard: {sf}",
+              construct="node tag update covers all standard face tags", facts={"mapped": [k for k, _ in pairs]})
+    for k, v in pairs:
+        ctx.check("R6", stem(k) == stem(v) and v in sn, mod, q, dicts[0],
+                  f"nodes of faces tagged '{k}' must get the node tag of the same kind ('{stem(k)}_nodes'); they get '{v}' "
+                  f"(invisible on grids without fractures: both arrays are all False)", construct=f"node tag of {k}", facts={"face_tag": k, "node_tag": v})
+    # key agreement writer/reader of the domain boundary tag
+    w = mod.func(gcls + "update_boundary_face_tag")
+    r = mod.func(gcls + "get_boundary_faces")
+
+    def keys(fn_):
+        return {n.slice.value for n in ast.walk(fn_) if isinstance(n, ast.Subscript) and u(n.value) == "self.tags"
+                and isinstance(n.slice, ast.Constant) and isinstance(n.slice.value, str)}
+    ctx.check("R6", keys(w) == keys(r) and len(keys(w)) == 1 and keys(w) <= set(sf), mod, gcls + "update_boundary_face_tag", w,
+              f"update_boundary_face_tag writes {sorted(keys(w))}, get_boundary_faces reads {sorted(keys(r))}: one standard face tag",
+              construct="domain boundary tag: writer and reader use the same key")
+
+
+# =====================================================================================
+#  driver
+# =====================================================================================
+
+def run(ctx: Ctx) -> None:
+    mod = ctx.repo.module(GRID)
+    mo_mod = ctx.repo.module(MO)
+    amod = ctx.repo.module(AO)
+    tmod = ctx.repo.module(TAGS)
+    P = dense_producer(ctx)  # R1: reused from C17 (same obligations, recorded under this property)
+    ctx.sample({"rule": "R1", "producer": {k: v for k, v in P.items()}})
+    rule_signs_and_cells(ctx, mod, mo_mod)
+    rule_connection_maps(ctx, mod)
+    rule_divergence(ctx, mod, amod)
+    rule_boundary_face_tag(ctx, mod)
+    rule_tag_tables(ctx, mod, tmod)
+    if ctx.tier == "thorough":
+        for m in ctx.repo.modules("src/porepy"):
+            for n in ast.walk(m.tree):
+                if isinstance(n, ast.Call) and call_name(n) == "signs_and_cells_of_boundary_faces" and m.rel != GRID:
+                    ctx.note(f"consumer of signs_and_cells_of_boundary_faces (order of `faces` relied upon): {m.rel}:{n.lineno}")
+
+
+def _m(name, old, new, rule, file=GRID, control=False, count=1):
+    return dict(name=name, file=file, old=old, new=new, rule=rule, control=control, count=count)
+
+
+MUTANTS = [
+    # ---- R1 (reused C17 producer)
+    _m("dense-mask-mismatch", "cf_dense[1, fi[neg]] = ci[neg]", "cf_dense[1, fi[neg]] = ci[pos]", "R1"),
+    _m("dense-exterior-marker-zero", "cf_dense = -np.ones((2, self.num_faces), dtype=int)", "cf_dense = np.zeros((2, self.num_faces), dtype=int)", "R1"),
+    # ---- R2 orderings (all invisible when `faces` is passed in ascending order)
+    _m("signs-back-permutation-is-forward", "sgn, ci = sgn[IC], ci[IC]", "sgn, ci = sgn[IA], ci[IA]", "R2", control=True),
+    _m("cells-not-sorted-by-row", "sgn, ci = sgn[fi_sorted], ci[fi_sorted]", "sgn, ci = sgn[fi_sorted], ci", "R2"),
+    _m("entries-not-sorted-by-row", "        sgn, ci = sgn[fi_sorted], ci[fi_sorted]\n", "", "R2"),
+    _m("one-cell-guard-removed", '        if fi.size != faces.size:\n            raise ValueError("sign of internal faces does not make sense")\n', "", "R2"),
+    _m("guard-compares-entries-with-entries", "if fi.size != faces.size:", "if fi.size != ci.size:", "R2"),
+    _m("returns-row-numbers-as-cells", "        sgn, ci = sgn[IC], ci[IC]\n        return sgn, ci", "        sgn, ci = sgn[IC], fi[IC]\n        return sgn, ci", "R2"),
+    _m("rows-unsorted-but-unsorting-applied", "self.cell_faces[faces[IA], :]", "self.cell_faces[faces, :]", "R2", control=True),
+    _m("inverse-taken-of-faces", "IC = np.argsort(IA)", "IC = np.argsort(faces)", "R2"),
+    _m("signs-and-cells-swapped-on-return", "        sgn, ci = sgn[IC], ci[IC]\n        return sgn, ci", "        sgn, ci = sgn[IC], ci[IC]\n        return ci, sgn", "R2"),
+    _m("triple-helper-masked-arm-col-first", "return (mat_copy.row[nz_mask], mat_copy.col[nz_mask], mat_copy.data[nz_mask])",
+       "return (mat_copy.col[nz_mask], mat_copy.row[nz_mask], mat_copy.data[nz_mask])", "R2", file=MO),
+    # ---- R3 connection maps
+    _m("connection-map-mutates-incidence", "cell_faces = self.cell_faces.copy()", "cell_faces = self.cell_faces", "R3", control=True),
+    _m("connection-map-keeps-signs", "        cell_faces.data = np.abs(cell_faces.data)\n", "", "R3"),
+    _m("connection-map-face-face", "c2c = cell_faces.transpose() * cell_faces", "c2c = cell_faces * cell_faces.transpose()", "R3"),
+    _m("cell-nodes-keeps-signs", "mat = (self.face_nodes @ np.abs(self.cell_faces)) > 0", "mat = (self.face_nodes @ self.cell_faces) > 0", "R3"),
+    _m("cell-nodes-transposed-factor", "mat = (self.face_nodes @ np.abs(self.cell_faces)) > 0", "mat = (self.face_nodes.T @ np.abs(self.cell_faces)) > 0", "R3"),
+    # ---- R4 divergence / trace
+    _m("divergence-identity-first", "block_div = sps.kron(scalar_div, sps.eye(dim))", "block_div = sps.kron(sps.eye(dim), scalar_div)", "R4", control=True),
+    _m("divergence-vector-not-transposed", "return block_div.T.tocsr()", "return block_div.tocsr()", "R4"),
+    _m("divergence-scalar-not-transposed", "return self.cell_faces.T.tocsr()", "return self.cell_faces.tocsr()", "R4"),
+    _m("divergence-identity-of-grid-dim", "block_div = sps.kron(scalar_div, sps.eye(dim))", "block_div = sps.kron(scalar_div, sps.eye(self.dim))", "R4"),
+    _m("divergence-zero-dim-accepted", "        elif dim > 1:  # The divergence of a vector.", "        elif dim != 1:  # The divergence of a vector.", "R4"),
+    _m("trace-columns-expanded-with-grid-dim", "cols = pp.array_operations.expand_indices_nd(bound_cells, dim)",
+       "cols = pp.array_operations.expand_indices_nd(bound_cells, self.dim)", "R4"),
+    _m("trace-columns-from-signs", "_, bound_cells = self.signs_and_cells_of_boundary_faces(bound_faces)",
+       "bound_cells, _ = self.signs_and_cells_of_boundary_faces(bound_faces)", "R4"),
+    _m("expand-indices-component-major", "new_ind = nd * ind + dim_inds", "new_ind = ind + nd * dim_inds", "R4", file=AO),
+    # ---- R5 boundary tag
+    _m("boundary-count-per-cell", "np.diff(self.cell_faces.tocsr().indptr) == 1", "np.diff(self.cell_faces.tocsc().indptr) == 1", "R5", control=True),
+    _m("boundary-at-least-one-cell", "np.diff(self.cell_faces.tocsr().indptr) == 1", "np.diff(self.cell_faces.tocsr().indptr) >= 1", "R5"),
+    _m("boundary-tag-not-cleared", '        self.tags["domain_boundary_faces"] = zeros\n        if self.dim > 0:', "        if self.dim > 0:", "R5"),
+    _m("boundary-tag-sized-by-nodes", "zeros = np.zeros(self.num_faces, dtype=bool)\n        self.tags[\"domain_boundary_faces\"] = zeros",
+       "zeros = np.zeros(self.num_nodes, dtype=bool)\n        self.tags[\"domain_boundary_faces\"] = zeros", "R5"),
+    # ---- R6 tag tables
+    _m("node-tags-of-fracture-and-tip-swapped", '"fracture_faces": "fracture_nodes",\n            "tip_faces": "tip_nodes",',
+       '"fracture_faces": "tip_nodes",\n            "tip_faces": "fracture_nodes",', "R6", control=True),
+    _m("all-tags-drops-third", "return np.logical_or(np.logical_or(parent[ft[0]], parent[ft[1]]), parent[ft[2]])",
+       "return np.logical_or(parent[ft[0]], parent[ft[1]])", "R6", file=TAGS),
+    _m("boundary-faces-from-node-tags", "return self._indices(tags.all_face_tags(self.tags))", "return self._indices(tags.all_node_tags(self.tags))", "R6"),
+    _m("tip-faces-not-transferred-to-nodes", '            "tip_faces": "tip_nodes",\n', "", "R6"),
+    _m("fourth-face-tag-without-node-tag", 'return ["fracture_faces", "tip_faces", "domain_boundary_faces"]',
+       'return ["fracture_faces", "tip_faces", "domain_boundary_faces", "well_faces"]', "R6", file=TAGS),
+    _m("all-face-tags-uses-node-list", "return all_tags(parent, standard_face_tags())", "return all_tags(parent, standard_node_tags())", "R6", file=TAGS),
+]
